@@ -115,11 +115,17 @@ class ReaderModel(object):
             tags = set(env.get(name, ()))
             if not tags:
                 return tags
-            for g in P.guards(at):
-                if g.kind not in ('if', 'early'):
-                    continue
-                t = g.test
-                for cmp_ in ([t] if isinstance(t, ast.Compare) else [x for x in ast.walk(t) if isinstance(x, ast.Compare)] if isinstance(t, ast.BoolOp) and isinstance(t.op, ast.And) and g.polarity else []):
+            tests = [(g.test, g.polarity) for g in P.guards(at) if g.kind in ('if', 'early')]
+            # filters of an enclosing comprehension over this variable: [f(child) for child in node if child.tag in names]
+            up = P.parent(at)
+            while up is not None and not isinstance(up, (ast.FunctionDef, ast.AsyncFunctionDef)):
+                if isinstance(up, (ast.ListComp, ast.GeneratorExp, ast.SetComp, ast.DictComp)):
+                    for gen in up.generators:
+                        if any(isinstance(x, ast.Name) and x.id == name for x in ast.walk(gen.target)):
+                            tests.extend((c, True) for c in gen.ifs)
+                up = P.parent(up)
+            for t, polarity in tests:
+                for cmp_ in ([t] if isinstance(t, ast.Compare) else [x for x in ast.walk(t) if isinstance(x, ast.Compare)] if isinstance(t, ast.BoolOp) and isinstance(t.op, ast.And) and polarity else []):
                     if len(cmp_.ops) != 1:
                         continue
                     if P.src(cmp_.left) != '%s.tag' % name:
@@ -132,12 +138,12 @@ class ReaderModel(object):
                         continue
                     op = cmp_.ops[0]
                     if isinstance(op, (ast.Eq, ast.In)):
-                        if g.polarity:
+                        if polarity:
                             tags = (tags & rt) if ANY not in tags else set(rt)
-                        elif isinstance(op, ast.Eq) or True:
+                        else:
                             tags = tags - rt
                     elif isinstance(op, (ast.NotEq, ast.NotIn)):
-                        if not g.polarity:
+                        if not polarity:
                             tags = (tags & rt) if ANY not in tags else set(rt)
                         else:
                             tags = tags - rt
